@@ -1130,3 +1130,56 @@ def x17(cx: Cx, ob: Ob) -> None:
 
     check_expand_pair_all(cx, ob)
     check_get_record(cx, ob)
+    first_hit_over_tables(cx, ob)
+
+
+def first_hit_over_tables(cx: Cx, ob: Ob) -> None:
+    """A query that takes the FIRST hit of an iteration over a lookup table (``next(<generator over self.T...>)``, a
+    loop over the table that returns from its body) answers by the table's insertion order: the constructor fills
+    the tables in record order, add_record / add_prefix in the order of the calls, so the same records give
+    different answers depending on how the converter came to hold them.  (Iterating self.records is not flagged:
+    a converter built from the current records has them in the same order.)"""
+    from ..rules import TABLES, self_state_writes
+
+    ci = cx.model.cls(CONV, ob.id)
+    writers = {m.name for m, _, _, _ in self_state_writes(cx, CONV, ob.id)}
+    for m in ci.methods.values():
+        if m.self_name is None or m.name in writers or m.name.startswith("__"):
+            continue
+        s = cx.summary(m, ob.id)
+        me = ("param", m.self_name)
+
+        def over_table(it):
+            for x in subterms(it):
+                if op(x) == "attr" and x[1] == me and x[2] in TABLES and x[2] != "trie":
+                    return x[2]
+            return None
+
+        flagged = False
+        for t, ev, _ in s.all_terms():
+            for c in subterms(t):
+                if op(c) == "call" and c[1] == ("builtin", "next") and c[2] and op(c[2][0]) == "comp" and c[2][0][3]:
+                    tab = over_table(c[2][0][3][0][1])
+                    if tab and c[2][0][3][0][2] and not flagged:
+                        flagged = True
+                        ob.violate(
+                            m.qualname,
+                            where(m, ev.line),
+                            f"{m.name} takes the first match of a filtered iteration over self.{tab} (`{show(c)[:60]}`): which entry comes first is the order in which the names were INSERTED, so a converter built by add_prefix / add_record calls and one constructed from the same records give different answers when several entries match",
+                            witness="add_prefix('go', ..) then add_prefix('GO', ..): a case-folded query finds 'go' first; Converter(c.records) indexes in record order and may find 'GO'",
+                            detail=f"first-hit-over-table:{tab}",
+                        )
+        for o, ctx in s.outcomes():
+            if o is None or o[0] != "return" or not ctx.loops or flagged:
+                continue
+            lp = ctx.loops[-1]
+            tab = over_table(lp.b) if isinstance(lp.b, tuple) else None
+            if tab and any(g.kind == "guard" and g.line > lp.line for g in ctx.guards):
+                flagged = True
+                ob.violate(
+                    m.qualname,
+                    where(m, o[2]),
+                    f"{m.name} returns from inside a loop over self.{tab} on the first entry that passes a test: the answer depends on the insertion order of the table, i.e. on the history of add_prefix / add_record calls",
+                    detail=f"first-hit-over-table:{tab}",
+                )
+        ob.site(f"{m.where} {m.qualname}", "no first-hit iteration over a lookup table")
